@@ -1,5 +1,167 @@
 (* C17 - a fact limit turns divergence into an error, never a silent partial result.
-   (theorems under construction) *)
-From Coq Require Import List ZArith.
-From MV Require Import Datalog.Syntax Datalog.Interp Datalog.Solve Datalog.SemiNaive Datalog.Strata Datalog.Limit.
+   Property theorems only; each is closed by an exact reference to a lemma of
+   Datalog/{LimitProofs,LimitLfp}.v. The model: Datalog/Limit.v = the C01 semi-naive
+   model (engine.eval after fix F1) plus the four places where
+   engine/seminaivebottomup.go compares with createdFactLimit / totalFactLimit.
+   Quantified over every program, stratum list (any order of strata, of rules and of
+   delta rules), caller's store, initial facts, limit and fuel. *)
+From Coq Require Import List ZArith Arith.
+From MV Require Import Datalog.Syntax Datalog.Interp Datalog.Solve Datalog.SemiNaive Datalog.Strata
+     Datalog.Lfp Datalog.Limit Datalog.LimitProofs Datalog.LimitLfp.
 Import ListNotations.
+Local Open Scope nat_scope.
+
+(* ---- 1. a return without error is a return of the unlimited engine with the same store
+   (no hypothesis on the program at all: pure simulation, same fuel) *)
+Theorem limit_ok_simulates :
+  forall (fuel L : nat) (P : list clause) (layers : list (list Z)) (store init S : list fact),
+    eval_program_lim fuel L P layers store init = LOk S ->
+    eval_program fuel P layers store init = Ok S.
+Proof. exact eval_program_lim_ok. Qed.
+Print Assumptions limit_ok_simulates.
+
+(* ... hence, for a valid stratification, exactly the stratified least model over the
+   base facts (with C01's theorem StrataProofs.eval_program_exact) *)
+Theorem limit_ok_complete :
+  forall (fuel L : nat) (P : list clause) (layers : list (list Z)) (store init S : list fact),
+    valid_stratification P layers ->
+    eval_program_lim fuel L P layers store init = LOk S ->
+    forall f, In f S <-> slfp P layers (fun g => In g (add_all store init)) f.
+Proof. exact eval_program_lim_complete. Qed.
+Print Assumptions limit_ok_complete.
+
+(* ---- 2. at every return, with or without error, the store holds at most
+   |E| + (R + 2) * L facts: E = caller's facts + initial facts, R = the largest number
+   of rules in one stratum (the first round of a stratum is only checked per rule) *)
+Theorem limit_bound :
+  forall (fuel L : nat) (P : list clause) (layers : list (list Z)) (store init S : list fact),
+    1 <= L ->
+    store_of (eval_program_lim fuel L P layers store init) = Some S ->
+    length S <= length (add_all store init)
+                + (max_rules (map (fun ps => mk_stratum P ps ps) layers) + 2) * L.
+Proof. exact eval_program_lim_bound. Qed.
+Print Assumptions limit_bound.
+
+(* the same with the program size: no predicate listed twice in a layer *)
+Theorem limit_bound_program :
+  forall (fuel L : nat) (P : list clause) (layers : list (list Z)) (store init S : list fact),
+    1 <= L -> Forall (@NoDup Z) layers ->
+    store_of (eval_program_lim fuel L P layers store init) = Some S ->
+    length S <= length (add_all store init) + (length P + 2) * L.
+Proof. exact eval_program_lim_bound_P. Qed.
+Print Assumptions limit_bound_program.
+
+(* ---- 3. |store| + L + 1 rounds per stratum are never used up: every round that is not
+   the last adds a fact the store did not have and leaves the store <= |store| + L *)
+Theorem limit_terminates :
+  forall (fuel L : nat) (P : list clause) (layers : list (list Z)) (store init : list fact),
+    length store + L + 1 <= fuel ->
+    eval_program_lim fuel L P layers store init <> LFuel.
+Proof. exact eval_program_lim_fuel. Qed.
+Print Assumptions limit_terminates.
+
+(* ---- the property in one statement *)
+Theorem limit_complete_or_error :
+  forall (fuel L : nat) (P : list clause) (layers : list (list Z)) (store init : list fact),
+    valid_stratification P layers -> 1 <= L -> length store + L + 1 <= fuel ->
+    exists S,
+      length S <= length (add_all store init) + (length P + 2) * L /\
+      ((eval_program_lim fuel L P layers store init = LOk S /\
+        forall f, In f S <-> slfp P layers (fun g => In g (add_all store init)) f)
+       \/ eval_program_lim fuel L P layers store init = LLimit S
+       \/ eval_program_lim fuel L P layers store init = LEval S).
+Proof. exact eval_program_lim_total. Qed.
+Print Assumptions limit_complete_or_error.
+
+(* ================================================================ non-vacuity *)
+Open Scope Z_scope.
+(* p0(Y) :- p0(X), Y = fn:plus(X, 1).   diverges from p0(1) *)
+Definition counter : clause :=
+  mkClause (mkAtom 0 [TVar 2]) [PAtom (mkAtom 0 [TVar 1]); PEq (TVar 2) (TApp FPlus [TVar 1; TConst (CNum 1)])] [].
+(* p0(Y) :- p0(X), X < 3, Y = fn:plus(X, 1).   finite: p0(0..3) *)
+Definition bounded : clause :=
+  mkClause (mkAtom 0 [TVar 2])
+           [PAtom (mkAtom 0 [TVar 1]); PCmp Lt (TVar 1) (TConst (CNum 3));
+            PEq (TVar 2) (TApp FPlus [TVar 1; TConst (CNum 1)])] [].
+
+Lemma one_layer_valid (c : clause) :
+  apred (chead c) = 0 -> pos_preds (cbody c) = [0] -> neg_preds (cbody c) = [] ->
+  valid_stratification [c] [[0]].
+Proof.
+  intros Hh Hp Hn. split; [repeat constructor; simpl; tauto|].
+  intros c' [<-|[]]. exists 0%nat. rewrite Hh, Hp, Hn. split; [reflexivity|]. split.
+  - intros q [<-|[]]. simpl. constructor.
+  - intros q [].
+Qed.
+
+(* hypotheses of limit_ok_complete / limit_ok_simulates: a valid stratification and an
+   LOk outcome with four facts, under a limit that is exactly large enough *)
+Example limit_ok_nonvacuous :
+  valid_stratification [bounded] [[0]] /\
+  eval_program_lim 9%nat 4%nat [bounded] [[0]] [] [(0, [CNum 0])]
+  = LOk [(0, [CNum 0]); (0, [CNum 1]); (0, [CNum 2]); (0, [CNum 3])].
+Proof. split; [apply one_layer_valid; reflexivity | vm_compute; reflexivity]. Qed.
+
+(* ... and one fact less of limit turns the same program into an error, not into a
+   shorter Ok result *)
+Example limit_one_less_is_error :
+  eval_program_lim 9%nat 3%nat [bounded] [[0]] [] [(0, [CNum 0])]
+  = LLimit [(0, [CNum 0]); (0, [CNum 1]); (0, [CNum 2]); (0, [CNum 3])].
+Proof. vm_compute; reflexivity. Qed.
+
+(* hypotheses of limit_bound / limit_terminates on a program with an infinite least
+   model: limit 5, fuel 0 + 5 + 1: the outcome is a limit error holding 6 facts
+   (bound: 1 + (1 + 2) * 5 = 16), while the unlimited model uses up the same fuel *)
+Example limit_diverging_nonvacuous :
+  valid_stratification [counter] [[0]] /\
+  (exists S, eval_program_lim 6%nat 5%nat [counter] [[0]] [] [(0, [CNum 1])] = LLimit S /\ length S = 6%nat) /\
+  eval_program 6%nat [counter] [[0]] [] [(0, [CNum 1])] = OutOfFuel.
+Proof.
+  split; [apply one_layer_valid; reflexivity|]. split; [|vm_compute; reflexivity].
+  eexists. split; vm_compute; reflexivity.
+Qed.
+
+(* ================================================================ refutations *)
+(* The rule factor in the bound is real: the first round of a stratum has no check on
+   the delta store (only the per-join check), so three rules of one stratum that each
+   produce L = 4 facts put 12 facts into the store before the first total-size check.
+   "store at return <= |E| + 2L + 1" (the bound first guessed in DESIGN section 5) fails:
+   E = 2, L = 4, return with 14 facts > 11. *)
+Definition prod (k : Z) : clause :=
+  mkClause (mkAtom 1 [TVar 1; TVar 2; TConst (CNum k)])
+           [PAtom (mkAtom 0 [TVar 1]); PAtom (mkAtom 0 [TVar 2])] [].
+
+Theorem limit_bound_without_rule_factor_refuted :
+  ~ (forall (fuel L : nat) (P : list clause) (layers : list (list Z)) (store init S : list fact),
+       (1 <= L)%nat ->
+       store_of (eval_program_lim fuel L P layers store init) = Some S ->
+       (length S <= length (add_all store init) + 2 * L + 1)%nat).
+Proof.
+  intros H.
+  specialize (H 9%nat 4%nat [prod 1; prod 2; prod 3] [[1]] [(0, [CNum 1]); (0, [CNum 2])] []).
+  vm_compute in H. specialize (H _ (le_S _ _ (le_S _ _ (le_S _ _ (le_n 1)))) eq_refl).
+  repeat (apply le_S_n in H). inversion H.
+Qed.
+Print Assumptions limit_bound_without_rule_factor_refuted.
+
+(* The limit does not only count facts created by rules: totalFactLimit is taken from the
+   caller's store BEFORE the facts of the program text are added (:222 vs :268), so the
+   same finite program with the same limit succeeds when its 3 base facts come from the
+   caller and stops with an error when they are written in the program. An error, not a
+   partial Ok - the property holds - but "L >= number of derived facts suffices" is false. *)
+Definition copy : clause :=
+  mkClause (mkAtom 1 [TVar 2]) [PAtom (mkAtom 0 [TVar 1]); PEq (TVar 2) (TApp FPlus [TVar 1; TConst (CNum 100)])] [].
+Definition base3 : list fact := [(0, [CNum 1]); (0, [CNum 2]); (0, [CNum 3])].
+
+Theorem limit_counts_program_facts_refuted :
+  ~ (forall (fuel L : nat) (P : list clause) (layers : list (list Z)) (store init S : list fact),
+       eval_program_lim fuel L P layers store init = LOk S ->
+       exists S', eval_program_lim fuel L P layers [] (store ++ init) = LOk S').
+Proof.
+  intros H.
+  assert (E : eval_program_lim 9%nat 3%nat [copy] [[1]] base3 []
+              = LOk [(0, [CNum 1]); (0, [CNum 2]); (0, [CNum 3]);
+                     (1, [CNum 101]); (1, [CNum 102]); (1, [CNum 103])]) by (vm_compute; reflexivity).
+  destruct (H _ _ _ _ _ _ _ E) as (S' & HS'). vm_compute in HS'. discriminate HS'.
+Qed.
+Print Assumptions limit_counts_program_facts_refuted.
